@@ -70,6 +70,7 @@ let dispatch = function
   | ["bonds"; net; start; stop; step] ->
       let l = contract_bondsZ (net_of_string net) (optz start) (optz stop) (optz step) in
       if l = [] then "-" else String.concat "," (List.map (fun n -> string_of_int (int_of_nat n)) l)
+  | ["wf"; r; net] -> if netwfbZ (nat_of_int (int_of_string r)) (net_of_string net) then "1" else "0"
   | ["value"; r; net] -> hex_of_z (valueZ (nat_of_int (int_of_string r)) (net_of_string net))
   | ["inner"; a; b] -> res hex_of_z (inner_productZ (col_of_string a) (col_of_string b))
   | ["pairwise"; a; b] -> res string_of_col (contract_pairwiseZ (col_of_string a) (col_of_string b))
